@@ -369,6 +369,9 @@ func (ev *Evaluator) Call(fn *ssa.Function, args []Val, free []Val, st *State) V
 					if c == nil {
 						c = A("?cond")
 					}
+					if len(ev.assume) > 0 && (c.Op == "a" || (c.Op == "not" && c.Args[0].Op == "a")) {
+						c = ev.decided(c) // a mode flag the rule fixes
+					}
 					econd[edge{b, b.Succs[0]}] = cAnd(cond[b], c)
 					econd[edge{b, b.Succs[1]}] = cAnd(cond[b], Not(c))
 				case *ssa.Jump:
